@@ -12,12 +12,15 @@
 EXTENDS Integers, Sequences, FiniteSets, TLC, Json
 CONSTANTS MaxRecs,                                  \* statements the thread logs before it exits
           MoCommit, MoInv, MoIsValid, MoEmpty,      \* "rlx" | "acq" | "rel" | "ar"
+          Unbounded,                                \* the queue may grow once: a second buffer linked through `next`
+          MoNext, MoNextEmpty,                      \* next.store in _handle_full_queue, next.load in UnboundedSPSCQueue::empty()
           Export
-VARIABLES W, V,             \* histories of writer_pos and _valid
+VARIABLES W, V, N,          \* histories of writer_pos (first buffer), _valid, and the first buffer's `next` pointer (0 = null)
+          nw2,              \* records committed into the second buffer (never read in this model: the backend has not switched yet)
           clk, view,        \* thread -> vector clock; thread -> [object -> oldest readable index]
           nw, exited,       \* records committed, the thread has run its exit path
           consumed, reclaimed, lost, hist
-vars == <<W, V, clk, view, nw, exited, consumed, reclaimed, lost, hist>>
+vars == <<W, V, N, nw2, clk, view, nw, exited, consumed, reclaimed, lost, hist>>
 T == {"P", "B"}
 Zero == [t \in T |-> 0]
 Join(a, b) == [t \in T |-> IF a[t] > b[t] THEN a[t] ELSE b[t]]
@@ -27,8 +30,8 @@ IsRel(mo) == mo \in {"rel", "ar"}
 Msg(v, rel, ev) == [val |-> v, rel |-> rel, ev |-> ev]
 
 Init ==
-  /\ W = <<Msg(0, Zero, Zero)>> /\ V = <<Msg(1, Zero, Zero)>>
-  /\ clk = [t \in T |-> Zero] /\ view = [t \in T |-> [o \in {"W", "V"} |-> 1]]
+  /\ W = <<Msg(0, Zero, Zero)>> /\ V = <<Msg(1, Zero, Zero)>> /\ N = <<Msg(0, Zero, Zero)>> /\ nw2 = 0
+  /\ clk = [t \in T |-> Zero] /\ view = [t \in T |-> [o \in {"W", "V", "N"} |-> 1]]
   /\ nw = 0 /\ exited = FALSE /\ consumed = 0 /\ reclaimed = FALSE /\ lost = FALSE /\ hist = <<>>
 Step(who, act, arg) == hist' = IF Export THEN Append(hist, [t |-> who, a |-> act, arg |-> arg]) ELSE hist
 
@@ -38,13 +41,30 @@ Lo(H, t, o) == LET hb == {j \in 1..Len(H) : Leq(H[j].ev, clk[t])} IN
                IF m > view[t][o] THEN m ELSE view[t][o]
 
 \* the thread logs a statement: payload, then commit_write
+Grown == N[Len(N)].val = 1
 PWrite ==
-  /\ ~exited /\ nw < MaxRecs
+  /\ ~exited /\ nw + nw2 < MaxRecs /\ ~Grown
   /\ LET c2 == [clk["P"] EXCEPT !["P"] = @ + 1] IN
      /\ W' = Append(W, Msg(nw + 1, IF IsRel(MoCommit) THEN c2 ELSE Zero, c2))
      /\ clk' = [clk EXCEPT !["P"] = c2] /\ view' = [view EXCEPT !["P"]["W"] = Len(W) + 1]
   /\ nw' = nw + 1 /\ Step("P", "write", <<>>)
-  /\ UNCHANGED <<V, exited, consumed, reclaimed, lost>>
+  /\ UNCHANGED <<V, N, nw2, exited, consumed, reclaimed, lost>>
+\* a statement that does not fit: _handle_full_queue commits the old buffer once more, links a new buffer, writes there
+PGrow ==
+  /\ Unbounded /\ ~exited /\ nw + nw2 < MaxRecs /\ ~Grown
+  /\ LET c1 == [clk["P"] EXCEPT !["P"] = @ + 1]
+         c2 == [c1 EXCEPT !["P"] = @ + 1]
+         c3 == [c2 EXCEPT !["P"] = @ + 1] IN          \* (the commit into the new buffer: its position is not modelled)
+     /\ W' = Append(W, Msg(nw, IF IsRel(MoCommit) THEN c1 ELSE Zero, c1))
+     /\ N' = Append(N, Msg(1, IF IsRel(MoNext) THEN c2 ELSE Zero, c2))
+     /\ clk' = [clk EXCEPT !["P"] = c3] /\ view' = [view EXCEPT !["P"]["W"] = Len(W) + 1, !["P"]["N"] = Len(N) + 1]
+  /\ nw2' = 1 /\ Step("P", "grow", <<>>)
+  /\ UNCHANGED <<V, nw, exited, consumed, reclaimed, lost>>
+PWrite2 ==
+  /\ ~exited /\ nw + nw2 < MaxRecs /\ Grown
+  /\ clk' = [clk EXCEPT !["P"] = [clk["P"] EXCEPT !["P"] = @ + 1]]
+  /\ nw2' = nw2 + 1 /\ Step("P", "write", <<>>)
+  /\ UNCHANGED <<W, V, N, view, nw, exited, consumed, reclaimed, lost>>
 
 \* the thread exits: its context is marked invalid
 PExit ==
@@ -53,7 +73,7 @@ PExit ==
      /\ V' = Append(V, Msg(0, IF IsRel(MoInv) THEN c2 ELSE Zero, c2))
      /\ clk' = [clk EXCEPT !["P"] = c2] /\ view' = [view EXCEPT !["P"]["V"] = Len(V) + 1]
   /\ Step("P", "exit", <<>>)
-  /\ UNCHANGED <<W, nw, consumed, reclaimed, lost>>
+  /\ UNCHANGED <<W, N, nw2, nw, consumed, reclaimed, lost>>
 
 \* the backend reads the queue: loads writer_pos (acquire in prepare_read) and consumes up to what it saw
 BRead(i) ==
@@ -61,33 +81,47 @@ BRead(i) ==
   /\ consumed' = W[i].val
   /\ clk' = [clk EXCEPT !["B"] = Join(@, W[i].rel)] /\ view' = [view EXCEPT !["B"]["W"] = i]
   /\ Step("B", "read", <<i>>)
-  /\ UNCHANGED <<W, V, nw, exited, reclaimed, lost>>
+  /\ UNCHANGED <<W, V, N, nw2, nw, exited, reclaimed, lost>>
 
 \* the clean-up predicate: is_valid() load, then (only if invalid) the empty() load
-BCheck(iv, iw) ==
+BCheck(iv, iw, inx) ==
   /\ ~reclaimed /\ iv \in Lo(V, "B", "V")..Len(V)
   /\ LET c1 == IF IsAcq(MoIsValid) THEN Join(clk["B"], V[iv].rel) ELSE clk["B"] IN
      IF V[iv].val = 1
-     THEN /\ iw = 0 /\ clk' = [clk EXCEPT !["B"] = c1] /\ view' = [view EXCEPT !["B"]["V"] = iv]
+     THEN /\ iw = 0 /\ inx = 0 /\ clk' = [clk EXCEPT !["B"] = c1] /\ view' = [view EXCEPT !["B"]["V"] = iv]
           /\ UNCHANGED <<reclaimed, lost>>
-     ELSE \* the bound for the second load is computed with the clock AFTER the first
+     ELSE \* the bound for each further load is computed with the clock AFTER the loads before it
           LET hb == {j \in 1..Len(W) : Leq(W[j].ev, c1)}
               m == IF hb = {} THEN 1 ELSE CHOOSE j \in hb : \A k \in hb : k <= j
               lo == IF m > view["B"]["W"] THEN m ELSE view["B"]["W"] IN
           /\ iw \in lo..Len(W)
-          /\ clk' = [clk EXCEPT !["B"] = IF IsAcq(MoEmpty) THEN Join(c1, W[iw].rel) ELSE c1]
-          /\ view' = [view EXCEPT !["B"]["V"] = iv, !["B"]["W"] = iw]
-          /\ reclaimed' = (W[iw].val = consumed)
-          /\ lost' = (W[iw].val = consumed /\ consumed < nw)
-  /\ Step("B", "check", <<iv, iw>>)
-  /\ UNCHANGED <<W, V, nw, exited, consumed>>
+          /\ LET c2 == IF IsAcq(MoEmpty) THEN Join(c1, W[iw].rel) ELSE c1
+                 firstEmpty == W[iw].val = consumed
+                 hbn == {j \in 1..Len(N) : Leq(N[j].ev, c2)}
+                 mn == IF hbn = {} THEN 1 ELSE CHOOSE j \in hbn : \A k \in hbn : k <= j
+                 lon == IF mn > view["B"]["N"] THEN mn ELSE view["B"]["N"] IN
+             IF Unbounded /\ firstEmpty
+             THEN \* UnboundedSPSCQueue::empty(): ... && next.load() == nullptr
+                  /\ inx \in lon..Len(N)
+                  /\ clk' = [clk EXCEPT !["B"] = IF IsAcq(MoNextEmpty) THEN Join(c2, N[inx].rel) ELSE c2]
+                  /\ view' = [view EXCEPT !["B"]["V"] = iv, !["B"]["W"] = iw, !["B"]["N"] = inx]
+                  /\ reclaimed' = (N[inx].val = 0)
+                  /\ lost' = (N[inx].val = 0 /\ (consumed < nw \/ nw2 > 0))
+             ELSE /\ inx = 0
+                  /\ clk' = [clk EXCEPT !["B"] = c2]
+                  /\ view' = [view EXCEPT !["B"]["V"] = iv, !["B"]["W"] = iw]
+                  /\ reclaimed' = firstEmpty
+                  /\ lost' = (firstEmpty /\ consumed < nw)
+  /\ Step("B", "check", <<iv, iw, inx>>)
+  /\ UNCHANGED <<W, V, N, nw2, nw, exited, consumed>>
 
-Next == PWrite \/ PExit \/ (\E i \in 1..Len(W) : BRead(i)) \/ (\E iv \in 1..Len(V), iw \in 0..Len(W) : BCheck(iv, iw))
+Next == PWrite \/ PGrow \/ PWrite2 \/ PExit \/ (\E i \in 1..Len(W) : BRead(i))
+        \/ (\E iv \in 1..Len(V), iw \in 0..Len(W), inx \in 0..Len(N) : BCheck(iv, iw, inx))
 Spec == Init /\ [][Next]_vars
 
 \* C20 / C03: a context is reclaimed only when every statement its thread committed has been consumed
 NoLoss == ~lost
-TypeOK == consumed <= nw /\ (reclaimed => exited)
-StateView == <<W, V, clk, view, nw, exited, consumed, reclaimed, lost>>
+TypeOK == consumed <= nw /\ (reclaimed => exited) /\ (nw2 > 0 => Unbounded)
+StateView == <<W, V, N, nw2, clk, view, nw, exited, consumed, reclaimed, lost>>
 ExportA == Export => PrintT("BEH " \o ToJson(hist'))
 =============================================================================
